@@ -68,10 +68,14 @@ def floors(tier):
     return {"distinct_nontrivial": 500, "cls:nested": 300, "cls:flat": 1000, "cls:body:or": 500, "cls:body:not": 100,
             "cls:zero_solutions": 100, "cls:positional": 100, "cls:nvars=2": 300, "cls:nvars=3": 300,
             "cls:caching_off": 300, "instances_checked": 5000, "cls:f2:const": 100, "cls:f2:call": 50, "cls:special:flatten": 150, "cls:special:preused_as_condition": 150,
-            "cls:rule_variable_with_empty_domain": 100, "cls:special:subquery_head_argument": 150, "cls:preceded_by_an_abandoned_evaluation": 1000}
+            "cls:rule_variable_with_empty_domain": 100, "cls:special:subquery_head_argument": 150, "cls:special:concatenate_head_argument": 120, "cls:preceded_by_an_abandoned_evaluation": 1000}
 
 
 def gen_case(rng):
+    if rng.random() < 0.05:
+        from .. import ix
+        return {"concat_head": True, "world": ix.gen_world(rng), "k": rng.randint(0, 3), "of": rng.choice(["element", "element", "parent"]),
+                "caching": rng.random() < 0.7, "kinds": ["P"], "cond": None, "nested": False, "special": None}
     if rng.random() < 0.06:
         return {"subquery_head": True, "world": D.random_world(rng, np_=(2, 4), nq=(2, 5), rich=False), "k": rng.randint(0, 2),
                 "caching": rng.random() < 0.6, "kinds": ["Q", "Q", "P"], "cond": None, "nested": False, "special": None}
@@ -276,9 +280,56 @@ def check_subquery_head_case(case, ctx):
     ctx.sample({"subquery_head": True, "k": case["k"], "expected": exp[:4]})
 
 
+def check_concat_head_case(case, ctx):
+    """rule head with a concatenate(...) argument collected over an attribute of an already bound flattened element (or of the
+    bound parent): V3(f1=p, f2=concatenate(e.subs), f3=e) with e = flatten(p.items); all three fields come from ONE assignment.
+    The same rule object is evaluated twice."""
+    from entity_query_language import entity, infer, let
+    from entity_query_language.entity import flatten, concatenate
+    from entity_query_language.symbolic import rule_mode
+    from entity_query_language.cache_data import enable_caching, disable_caching
+    from .. import ix
+    es, ps = ix.build_world(case["world"])
+    ctx.cls("cls:special:concatenate_head_argument")
+    ctx.cls("cls:caching_on" if case["caching"] else "cls:caching_off")
+    of = case["of"]
+    exp = Counter((pi, x.n, tuple(y.n for y in (x.subs if of == "element" else p.items)))
+                  for pi, p in enumerate(ps) for x in p.items if x.n > case["k"])
+    if len(set(k[2] for k in exp)) >= 2:
+        ctx.nontrivial()
+    (enable_caching if case["caching"] else disable_caching)()
+    try:
+        with rule_mode():
+            p = let(ix.Par, ps)
+            e = flatten(p.items)
+            coll = concatenate(e.subs if of == "element" else p.items)
+            rule = infer(entity(V3(f1=p, f2=coll, f3=e), e.n > case["k"]))
+        for rnd in range(2):
+            res = list(rule.evaluate())
+            ctx.count("instances_checked", len(res))
+            pidx = {id(p_): i for i, p_ in enumerate(ps)}
+            bad = [type(r).__name__ for r in res if type(r) is not V3 or id(r.f1) not in pidx or type(r.f3) is not ix.E]
+            if bad:
+                ctx.fail("INSTANCE", {"problems": ["not an instance built from the domain objects: " + bad[0]], "evaluation": rnd + 1})
+                return
+            got = Counter((pidx[id(r.f1)], r.f3.n, tuple(getattr(y, "n", "?") for y in r.f2)) for r in res)
+            if got != exp:
+                ctx.fail("CONCAT_HEAD", {"evaluation": rnd + 1, "of": of, "missing": sorted((exp - got).elements())[:6],
+                                         "extra": sorted((got - exp).elements())[:6]})
+                return
+    except Exception as e_:
+        import traceback
+        ctx.fail("EXC", f"{type(e_).__name__}: {e_}\n{traceback.format_exc()[-800:]}")
+    finally:
+        enable_caching()
+    ctx.sample({"concat_head": True, "k": case["k"], "of": of, "expected": sorted(exp)[:3]})
+
+
 def check_case(case, ctx):
     if case.get("subquery_head"):
         return check_subquery_head_case(case, ctx)
+    if case.get("concat_head"):
+        return check_concat_head_case(case, ctx)
     world = D.build_world(case["world"])
     tags = make_tags(case, world)
     exp = expected(case, world, tags)
@@ -326,7 +377,7 @@ def check_case(case, ctx):
 
 
 def classify(f, ctx):
-    if f["kind"] != "SET:missing" or f["case"].get("subquery_head"):
+    if f["kind"] != "SET:missing" or f["case"].get("subquery_head") or f["case"].get("concat_head"):
         return None
     case = f["case"]
     world = D.build_world(case["world"])
